@@ -1627,6 +1627,14 @@ class Interp:
                     self._note_vec_head(st, tgt, newv, ('deref', l))
                     continue
                 newv = hv(tgt, '*' + name)
+                inner = strip_ref(fr.fn.locals[l]['ty'] or '') or ''
+                if inner.startswith('[') and isinstance(newv, Sym) and isinstance(tgt, Sym) and isinstance(newv.term, tuple):
+                    # a slice behind a reference keeps its length whatever the loop writes into its elements
+                    try:
+                        T.typed(('len', newv.term), 'usize')
+                        st.assume(T.mk_cmp('eq', ('len', newv.term), self.len_of(st, tgt)))
+                    except Exception:
+                        pass
                 self.store(st, v.cell, v.path, newv)
                 self._note_vec_head(st, tgt, newv, ('deref', l))
         return mapping
